@@ -48,6 +48,13 @@ func init() {
 	pg.bigWin = true
 	pg.wParseNil = 0
 	suites["p-gsap"] = pSuite(pg, []string{"gsap.match.checked"})
+	pt := profGeneral
+	pt.twin = true
+	pt.wReset = 14
+	pt.maxOps = 60
+	pt.stream = 160 // short stream, replayed often: n-grams recur at shifted positions
+	pt.badCfgPct = 0
+	suites["p-reset"] = pSuite(pt, []string{"p.twin.fresh"})
 	po := profGeneral.withKinds("OSAP")
 	po.ntlPct = 10
 	suites["p-osap"] = pSuite(po, []string{"osap.block.withmatches"})
